@@ -263,7 +263,14 @@ class IntroducerClient(service.Service, Referenceable):
                          parent=lp, level=log.WEIRD, umid="ZAU15R")
                 continue
 
-            self._process_announcement(ann, key_s)
+            try:
+                self._process_announcement(ann, key_s)
+            except Exception as e:
+                # neither must a properly signed announcement whose contents
+                # are malformed (anybody can sign one with a key of their own)
+                self.log("unusable contents in inbound announcement (%r): %s" % (e, ann_t),
+                         parent=lp, level=log.WEIRD, umid="ZAU15S")
+                continue
 
     def _process_announcement(self, ann, key_s):
         precondition(isinstance(key_s, bytes), key_s)
